@@ -108,6 +108,26 @@ def trace_family(ctx, r):
         trace_one(ctx, s, i)
 
 
+def empty_result_traces(ctx, r):
+    """(i, continued) the dump callbacks when nothing is unspent at the end of the range (only OP_RETURN / non-standard outputs): the
+    header is all there is to write, and it too must be on disk before the rename"""
+    for cb in ("unspentcsvdump", "balances", "csvdump"):
+        for coin in ("bitcoin", "litecoin"):
+            blocks = []
+            for h in range(2):
+                cbt = K.Tx([(b"\0" * 32, 0xffffffff, bytes([3, h, 7, 7]), 0xffffffff)], [(50 * 10**8, b"\x6a\x01\x41"), (0, b"\x51")])
+                blocks.append(K.Block([cbt], time=1231006505 + 600 * h))
+            prev = b"\0" * 32
+            for b in blocks:
+                b.prev = prev
+                b.merkle_root = None
+                prev = b.hash()
+            s = K.Scenario(coin=coin, callback=cb)
+            GC.simple_layout(s, blocks)
+            s.meta = {"empty-result": cb}
+            trace_one(ctx, s, "empty-%s-%s" % (cb, coin))
+
+
 def trace_one(ctx, s, i):
         cb = s.callback
         res, files, order = traced_run(s)
@@ -525,6 +545,7 @@ def _with_far(s, h, delta=10**7):
 def correspondence(ctx):
     r = ctx.sub_rnd("c10")
     trace_family(ctx, r)
+    empty_result_traces(ctx, r)
     write_fault_family(ctx, r)
     crash_family(ctx, r)
     input_fault_family(ctx, r)
